@@ -5,7 +5,7 @@ import struct
 import zlib
 
 from pyvc.core import And, Eq, Implies, Ite, Not, Or, SymBytes
-from pyvc.unit import unit
+from pyvc.unit import bare, unit
 from specs import dexreader as R
 
 DEX = "androguard/core/dex/__init__.py"
@@ -119,7 +119,7 @@ def lookups(U):
     m = U.mod(DEX)
     a = _Cls("LA;", [_It("LA;", "m", "()V"), _It("LA;", "m", "(I)V"), _It("LA;", "n", "()V")], [_It("LA;", "f", "I"), _It("LA;", "f", "J")])
     b = _Cls("LB;", [_It("LB;", "m", "()V")], [_It("LB;", "f", "I")])
-    d = object.__new__(m.DEX)
+    d = bare(m.DEX)
     d.classes = None
     d.get_classes = lambda: [a, b]
     d.get_encoded_methods = lambda: a.m + b.m
@@ -246,7 +246,7 @@ def index_chains(U):
     """each name/descriptor is obtained by following exactly the index chain the DEX format prescribes"""
     m = U.mod(DEX)
     T = m.TypeMapItem
-    cm = object.__new__(m.ClassManager)
+    cm = bare(m.ClassManager)
     cm.hook_strings = {}
     cm.get_raw_string = lambda i: ("raw_string", i)
     tidx = U.choice("tidx", [0, 3, 7])
@@ -256,17 +256,17 @@ def index_chains(U):
     U.ensures("unknown type index is reported, not mis-resolved", cm.get_type(tidx + 1) == "AG:ITI: invalid type")
     rec = _Rec()
     ci, ti, ni = U.choice("c", [0, 5]), U.choice("t", [1, 6]), U.choice("n", [2, 9])
-    f = object.__new__(m.FieldIdItem)
+    f = bare(m.FieldIdItem)
     f.CM, f.class_idx, f.type_idx, f.name_idx = rec, ci, ti, ni
     f.reload()
     U.ensures("field id: class = type(class_idx), type = type(type_idx), name = string(name_idx)",
               (f.class_idx_value, f.type_idx_value, f.name_idx_value) == (("type", ci), ("type", ti), ("string", ni)))
-    me = object.__new__(m.MethodIdItem)
+    me = bare(m.MethodIdItem)
     me.CM, me.class_idx, me.proto_idx, me.name_idx = rec, ci, ti, ni
     me.reload()
     U.ensures("method id: class = type(class_idx), proto = proto(proto_idx), name = string(name_idx)",
               (me.class_idx_value, me.proto_idx_value, me.name_idx_value) == (("type", ci), [("params", ti), ("ret", ti)], ("string", ni)))
-    cd = object.__new__(m.ClassDefItem)
+    cd = bare(m.ClassDefItem)
     cd.CM = rec
     cd.class_idx, cd.superclass_idx, cd.interfaces_off = ci, ti, ni
     cd.class_data_off = U.choice("cdo", [0, 64])
@@ -352,7 +352,7 @@ MEMBERS = LoopSpec("ClassDataItem._load_elements#0", invariant=_inv_members,
            "1..5 by definition); the element list is a ghost list observed through index and access flags")
 def member_group_unbounded(U, n1):
     m = U.mod(DEX)
-    cd = object.__new__(m.ClassDataItem)
+    cd = bare(m.ClassDataItem)
     if U.mode != "sym":
         n = U.int("n", 0, 6)
         diffs = [U.int("d%d" % i, 0, 70000) for i in range(n)]
